@@ -164,7 +164,10 @@ impl Check for C13 {
                         csv = lines.join("\n");
                     }
                 }
-                world.extra.insert(c.file.clone(), csv);
+                world.extra.insert(crate::ledger::normalize(&c.file), csv);
+                if c.file.contains("/archive/../") {
+                    world.extra.insert("/w/in/bank/archive/.keep".to_string(), "keep\n".to_string());
+                }
                 source = c.file.clone();
             }
             let n_procs = 2 + rng.usize(4);
@@ -213,6 +216,33 @@ impl Check for C13 {
             };
             (w, coms, accounts)
         };
+        let mut world = world;
+        if coms.len() >= 2 && rng.chance(1, 10) {
+            // an amount (or an assertion) written as a sum that cancels to zero in two or more
+            // commodities: whatever okane makes of it - most likely an error - it must make the
+            // same of it in every process
+            let mut t = Txn::new(Date::new(2024, 12, 30), "cancelling sum");
+            let mut terms: Option<Expr> = None;
+            for c in coms.iter().take(2 + rng.usize(2)) {
+                let v = format!("{}", 1 + rng.below(500));
+                let pair = Expr::Bin('-', Box::new(Expr::lit(&v, c)), Box::new(Expr::lit(&v, c)));
+                terms = Some(match terms {
+                    None => pair,
+                    Some(x) => Expr::Bin('+', Box::new(x), Box::new(pair)),
+                });
+            }
+            let a = accounts[0].clone();
+            let mut p = Posting::new(&a);
+            if rng.chance(1, 2) {
+                p.amount = terms;
+            } else {
+                p.amount = Some(Expr::lit("0", ""));
+                p.assertion = terms;
+            }
+            t.postings.push(p);
+            t.postings.push(Posting::new(&accounts[accounts.len() - 1]));
+            world.files[0].push(Entry::Txn(t));
+        }
         let root = world.root().to_string();
         let n_procs = 2 + rng.usize(5);
         let procs: Vec<Proc> = (0..n_procs).map(|_| random_proc(rng, true)).collect();
